@@ -15,7 +15,6 @@ from ..cfg import CFG, OTHER
 REVIEWED = {
     ("rest_api_asyncio", "RestAPI.create_app.handle_post.aws_api_CreateStateMachine", "error_count"): "len(problems) > 0 implies len == 1 or len > 1",
     ("rest_api_asyncio", "RestAPI.create_app.handle_post.aws_api_UpdateStateMachine", "error_count"): "len(problems) > 0 implies len == 1 or len > 1",
-    ("state_engine", "StateEngine.notify.asl_state_Choice", "next_state"): "Choices is a non-empty array (schema: nonempty-object-array); an empty one fails the execution with States.Runtime inside notify's catch-all",
     ("state_engine_paths", "evaluate_payload_template.clone", "target"): "clone is only called with a list or an object (its two call sites test isinstance(..., (dict, list)))",
     ("j2119", "Assigner.assign_constraints", "field_list"): "bound under `if field_list_string:` and read only under the same test",
 }
